@@ -151,6 +151,7 @@ class Broker:
         )
         margin_actual = self._holdings_margins[trade.contract]
         margin_diff = margin_expected - margin_actual
+        quantity_before = self._holdings_quantity[trade.contract]
 
         # Pay transaction costs.
         self._holdings_quantity[self.base_currency] -= trade.cost_of_commissions
@@ -173,7 +174,19 @@ class Broker:
 
         # Update _margin requirements. Bid-ask spread is implicitly paid
         # here and now.
-        self._last_marking_to_market_price[trade.contract] = trade.acq_price
+        # Only the traded quantity is acquired at the execution price: the
+        # position held before the trade keeps its last marking price.
+        quantity_after = self._holdings_quantity[trade.contract]
+        last_price = self._last_marking_to_market_price.get(
+            trade.contract, trade.acq_price
+        )
+        if quantity_after != 0:
+            reference_price = (
+                quantity_before * last_price + trade.quantity * trade.acq_price
+            ) / quantity_after
+        else:
+            reference_price = trade.acq_price
+        self._last_marking_to_market_price[trade.contract] = reference_price
         self.marking_to_market(trade.contract)
 
     def marking_to_market(
